@@ -48,7 +48,7 @@ def main():
                  "kind_free_text": "Lean 4 models + theorems (lake project QKV), Python correspondence harness (harness/qkv)"}],
     "checks": checks,
     "not_applicable": [{"property_id": pid, "reason": NA_REASON} for pid in ids if pid not in CLAIMED],
-    "notes": "See DESIGN.md. known_findings.json lists recorded findings and fixed defects.",
+    "notes": "See DESIGN.md (trusted base: §3.10 and each check's level_note; which seeded change each check catches: §10.S). Known findings / fixed defects: known_findings.json and known/Cxx.json (cross-checked against the fix: commits of /repo by tools/check_known.py). Every check rebuilds the Lean project (lake build) and audits axioms/sorry before it runs, then ties the model to /repo's working tree (QKV_REPO overrides the path).",
   }
   with open(os.path.join(HERE, "MANIFEST.json"), "w") as fh:
     json.dump(m, fh, indent=1)
